@@ -785,6 +785,8 @@ func busRuns(c *hx.Ctx) {
 	}
 }
 
+var lifeFailures int
+
 // lifecycle: two real controllers with FIXED solicitation sets; links between
 // them come up, are matched, go down, come up again with the same link uuid, or
 // come up in parallel (other uuid, other transports). At every settle point
@@ -793,6 +795,11 @@ func busRuns(c *hx.Ctx) {
 // constraints allow that link - the property on EVERY link, whatever happened
 // on earlier ones.
 func lifecycle(c *hx.Ctx, uni [][2][]byte, script int) {
+	if lifeFailures >= 3 {
+		// every missing delivery costs the bounded wait: three concrete failing histories are enough
+		c.Class("lifecycle-skipped-after-failures")
+		return
+	}
 	pa, pb, other := twoPeers(c)
 	pool := smallPool(c, uni)
 	type linkDef struct {
@@ -939,6 +946,7 @@ func lifecycle(c *hx.Ctx, uni [][2][]byte, script int) {
 				got := len(ra[i]) - countA[i]
 				if got != wantA[i] && !failed {
 					failed = true
+					lifeFailures++
 					key := "not-matched-on-new-link"
 					if got > wantA[i] {
 						key = "matched-without-identical-solicitation"
@@ -951,6 +959,7 @@ func lifecycle(c *hx.Ctx, uni [][2][]byte, script int) {
 				got := len(rb[i]) - countB[i]
 				if got != wantB[i] && !failed {
 					failed = true
+					lifeFailures++
 					key := "not-matched-on-new-link"
 					if got > wantB[i] {
 						key = "matched-without-identical-solicitation"
